@@ -11,7 +11,7 @@ use mccore::{viol, Ctx, Json, Report};
 use refmodel::codec::RefMsg;
 use std::time::Duration;
 
-const BUDGET: usize = 48;
+const BUDGET: usize = 48; // 16-byte blocks on every script for token lengths 0..=8
 
 #[derive(Clone, Debug, PartialEq, Eq, Hash)]
 pub struct Key {
@@ -50,9 +50,17 @@ fn download_body(t: &Transfer) -> Vec<u8> {
     body(if t.kind == Kind::Download { 72 } else { 60 }, t.salt.wrapping_add(0x80))
 }
 
+/// Fresh token per request, of varying length (0..=8 bytes), so that anything of the cache-populating
+/// request leaking into a later reply - including its token *length* - shows.
+fn token_of(t: &Transfer, mid: u16) -> Vec<u8> {
+    let full = [0x90 | (t.salt & 0x0F), (mid >> 8) as u8, mid as u8, 0x11, 0x22, 0x33, 0x44, 0x55];
+    let len = ((mid as usize) * 3 + t.salt as usize) % 9;
+    full[..len].to_vec()
+}
+
 /// The k-th request of the transfer (fixed scripts: block size 16 throughout).
 fn request_of(t: &Transfer, k: usize, mid: u16) -> Vec<u8> {
-    let token = [0x90 | (t.salt & 0x0F), (mid >> 8) as u8, mid as u8];
+    let token = token_of(t, mid);
     let path: Vec<&str> = t.key.path.clone();
     match t.kind {
         Kind::Upload => {
@@ -118,7 +126,7 @@ fn run_order(ts: &[Transfer], order: &[usize], rep: Option<&mut Report>) -> Resu
             Some(r) => r,
             None => return Err(("C12/no-reply".into(), format!("transfer {} step {} got no reply", ti, pos[ti]))),
         };
-        let token = [0x90 | (t.salt & 0x0F), (mid >> 8) as u8, mid as u8];
+        let token = token_of(t, mid);
         if reply.mid != mid || reply.token != token {
             return Err((
                 "C12/reply-does-not-echo-current-request".into(),
@@ -297,5 +305,5 @@ pub fn run(ctx: &Ctx, rep: &mut Report) {
         );
     }
     rep.assume("interleavings are message-level merges at the serial (&mut self) handler; the crate has no threads or shared mutable state for a thread scheduler to intercept");
-    rep.assume("scripts use fixed block numbers (block size 16 at budget 48); fresh message id and token per request; transcripts compare code, options and payload, the id/token echo is checked separately");
+    rep.assume("scripts use fixed block numbers (block size 16); fresh message id and a fresh token of varying length (0..8 bytes) per request; transcripts compare code, options and payload, the id/token echo is checked separately");
 }
